@@ -67,13 +67,13 @@ def blocks(tier, seed):
     nfull, nskel, nchain = (3, 4, 3) if q else (4, 5, 4)
     bl = [
         Block('CTRL_full', lambda s, n: spaces.progs_upto(nfull, 'full', s, n), ctrl_case,
-              'every program of the full control grammar with <= %d nodes' % nfull, nshards=64),
+              'every program of the full control grammar with <= %d nodes' % nfull, nshards=64, backstop=30),
         Block('CTRL_skel', lambda s, n: spaces.progs_upto(nskel, 'skel', s, n), ctrl_case,
-              'every program of the skeleton grammar with <= %d nodes' % nskel, nshards=64),
+              'every program of the skeleton grammar with <= %d nodes' % nskel, nshards=64, backstop=30),
         Block('CTRL_chain', lambda s, n: itertools.islice(spaces.chain_progs(nchain), s, None, n), ctrl_case,
               'every nesting chain of depth <= %d x innermost leaf, marker after each level' % nchain, nshards=32),
         Block('STEP', lambda s, n: stepspace.cases(tier, seed, s, n), step_case,
-              'all opcodes x boundary operands x bounded stacks x caches x limits', nshards=128),
+              'all opcodes x boundary operands x bounded stacks x caches x limits', nshards=128, backstop=30),
         Block('STEP_typed', lambda s, n: stepspace.typed_cases(tier, seed, s, n), step_case,
               'multi-operand crypto/contract instructions over typed sub-alphabets', nshards=64),
     ]
